@@ -30,7 +30,7 @@ CHUNK = 8
 OPTS = ['gc1', 'gc3', 'G', 'cov', 'prof', 'buf', 'warn', 'D', 'gcat', 'list', 'path2', 'profbr']
 ENDS = ['normal', 'fail', 'hookS', 'hookD', 'kbint', 'kbint_setup', 'x', 'sysexit_layer',
         'warnfilter', 'leave_replaced', 'settrace', 'layer_swaps', 'layer_unpaths',
-        'garbage_small', 'garbage_big']
+        'garbage_small', 'garbage_big', 'close_out']
 
 
 def cases(tier, seed):
@@ -40,7 +40,7 @@ def cases(tier, seed):
             if 'prof' in sub and 'profbr' in sub:
                 continue
             for e in worlds.rot(ENDS, seed):
-                if e == 'leave_replaced' and 'buf' not in sub:
+                if e in ('leave_replaced', 'close_out') and 'buf' not in sub:
                     # without --buffer the runner never touches the streams
                     continue
                 yield [list(sub), e]
@@ -92,6 +92,9 @@ def build(end):
         q1 = 'settrace'
     elif end == 'leave_replaced':
         q1 = 'leave_replaced'
+    elif end == 'close_out':
+        # a test that closes the streams it finds in sys.stdout / sys.stderr
+        q1 = 'close_out'
 
     tests = [{'n': 'q0', 'l': 'A', 's': 'pass'}, {'n': 'q1', 'l': 'A', 's': q1},
              {'n': 'q2', 'l': 'A', 's': q2}, {'n': 'q3', 'l': 'B', 's': 'pass'}]
